@@ -51,6 +51,10 @@ class Back:
     def __init__(self, labels, used=None):
         self.labels = labels
         self.by_str = {str(l): i for i, l in enumerate(labels)}
+        for i, l in enumerate(labels):
+            # a digit string such as "01" is the int 1 once a dataset has turned all-integer names into ints
+            if isinstance(l, str) and l.isdigit() and str(int(l)) not in self.by_str:
+                self.by_str[str(int(l))] = i
         used_labels = [labels[i] for i in used] if used is not None else list(labels)
         self.exp_type, _ = expected_type_and_values(used_labels)
 
@@ -255,3 +259,41 @@ def observe_dataset(d):
             r.positions, r.domain, r.nb_elements
     except Exception:
         pass
+
+
+def mutate_in_place(d, labels, what):
+    """what: an abstract element (removed with remove_elements) or 'empties' (remove_empty_rankings)."""
+    if what == 'empties':
+        d.remove_empty_rankings()
+    else:
+        victim = [e for r in d.rankings for b in r.buckets for e in b if str(e.value) == str(labels[what])]
+        d.remove_elements({victim[0]})
+
+
+def mutation_histories(ds0):
+    """(what, abstract dataset after) for every in-place mutation of ds0 that leaves a dataset: removal of one element
+    of a universe of >= 2 elements, and remove_empty_rankings when ds0 has an empty ranking."""
+    from . import refmodel
+    out = []
+    if any(len(r) == 0 for r in ds0):
+        out.append(('empties', tuple(r for r in ds0 if len(r) > 0)))
+    uni = spaces.universe_of(ds0)
+    if len(uni) >= 2:
+        for x in uni:
+            after = refmodel.remove_elements(ds0, {x})
+            if len(after) > 0:
+                out.append((x, after))
+    return out
+
+
+def prepare_mutated(ds0, labels, what, warm=None):
+    """the REAL object built from ds0, optionally used once (warm(d)), looked at, then mutated in place."""
+    d = mk_dataset(ds0, labels)
+    if warm is not None:
+        try:
+            warm(d)
+        except Exception:
+            pass
+    observe_dataset(d)
+    mutate_in_place(d, labels, what)
+    return d
